@@ -17,6 +17,7 @@ func init() {
 			ruleExactLength(r)
 			ruleReaderErrflow(r)
 			ruleCompressor(r)
+			rulePoolPutOnce(r)
 		})
 	register("C12",
 		"Static rules that a cut or header-damaged file cannot yield invented data: the header CRC is the same polynomial on both sides, covers exactly the four parsed fields, is reset before and taken before the stored checksum is read, and a mismatch or a wrong marker returns the documented error with no success return around the comparison; every payload read is exact-length (io.ReadFull with tested error, or ReadAt with the count compared to the expected length selected by compressor presence); the file header's version and compression ranges equal the constant tables and both Open paths go through that check; no error is dropped in the reader call graph (E-ERRFLOW). Decides these shapes; the prefix property over truncation lengths and CRC strength are not decided.",
@@ -61,6 +62,9 @@ func ruleReaderErrflow(r *Report) {
 
 // the writer side: a file reported as written is the file on disk
 func ruleWriterErrflow(r *Report) {
+	if _, done := r.RuleText["write-count"]; !done {
+		ruleWriteCount(r)
+	}
 	r.Rule("writer-errflow", 10, "in the RecordIO file writer (Open/Write/WriteSync/Seek/Close and the buffered writer) no error is dropped or turned into success")
 	ef := newErrflow(r, "writer-errflow")
 	for _, k := range []string{"recordio.FileWriter.Open", "recordio.FileWriter.Write", "recordio.FileWriter.WriteSync", "recordio.FileWriter.Seek", "recordio.FileWriter.Close",
